@@ -239,6 +239,16 @@ func init() {
 				s := strend.NewTsiStrategyWith(cfg[0], cfg[1], cfg[2])
 				return stratInst(s, s.IdlePeriod)
 			}},
+		// the same strategy configured through its exported fields after construction (Tsi and Signal are exported knobs)
+		Pipe{Name: "strategy/trend.TsiStrategy/fields", Class: "strategy", Inputs: snapIn, Params: ps("first", "second", "signal"),
+			Default: cfgOf(trend.DefaultTsiFirstSmoothingPeriod, trend.DefaultTsiSecondSmoothingPeriod, strend.DefaultTsiStrategySignalPeriod),
+			Fields:  []string{"Close"},
+			Make: func(cfg []int) Inst {
+				s := strend.NewTsiStrategy()
+				s.Tsi = trend.NewTsiWith[float64](cfg[0], cfg[1])
+				s.Signal = trend.NewEmaWithPeriod[float64](cfg[2])
+				return stratInst(s, s.IdlePeriod)
+			}},
 		// VwmaStrategy: the VWMA and the SMA periods are separate exported knobs; the library default is one period for both.
 		Pipe{Name: "strategy/trend.VwmaStrategy", Class: "strategy", Inputs: snapIn, Params: ps("vwma", "sma"),
 			// one period for both averages (NewVwmaStrategy sets both from DefaultVwmaStrategyPeriod; there is no With constructor)
